@@ -71,16 +71,23 @@ def physical_kernel(H, in_shape, out_shape, xi_y, xi_x, x_y, x_x, wvl, efl, sign
     return D
 
 
-def proportional(H, label, C, D):
-    """C[n,j] == g(j) D[n,j] with g independent of the input sample n:  C[n,j] D[0,j] == C[0,j] D[n,j]."""
+def proportional(H, label, C, D, pupil='in'):
+    """C == g * D with g independent of the PUPIL sample.  Kernels are indexed [input i, j, output k, l].
+    pupil='in'  (pupil -> focal plane): g may depend on the focal (output) sample:  C[i,j,k,l] D[0,0,k,l] == C[0,0,k,l] D[i,j,k,l]
+    pupil='out' (focal plane -> pupil): g may depend on the focal (input) sample:   C[i,j,k,l] D[i,j,0,0] == C[i,j,0,0] D[i,j,k,l]
+    (a factor that varied over the pupil would be a spurious wavefront: e.g. one wave of tilt for a focal origin off by one sample)"""
     shp = H.np.shape(C)
     m, n = shp[0], shp[1]
     lhs = H.zeros(shp)
     rhs = H.zeros(shp)
     for i in range(m):
         for j in range(n):
-            lhs[i, j] = C[i, j] * D[0, 0]
-            rhs[i, j] = C[0, 0] * D[i, j]
+            if pupil == 'in':
+                lhs[i, j] = C[i, j] * D[0, 0]
+                rhs[i, j] = C[0, 0] * D[i, j]
+            else:
+                lhs[i, j] = C[i, j] * D[i, j, 0, 0]
+                rhs[i, j] = C[i, j, 0, 0] * D[i, j]
     H.eq(label, lhs, rhs)
 
 
@@ -131,7 +138,7 @@ def run(cfg, H):
         rd = RD(H.zeros((M, N), complex_=False), holder['dx'], wvl)
         out_y, out_x = axis_coords(H, rd, (M, N))
         D = physical_kernel(H, (m, n), (M, N), in_y, in_x, out_y, out_x, wvl, efl, sign)
-        proportional(H, 'kernel in physical coordinates (reported dx)', C, D)
+        proportional(H, 'kernel in physical coordinates (reported dx)', C, D, pupil='in' if cfg['dir'] == 'fwd' else 'out')
     else:
         M, N = cfg['out']
         odx = H.param('odx')
@@ -163,4 +170,7 @@ def run(cfg, H):
         out_y = [v - sy for v in out_y]
         out_x = [v - sx for v in out_x]
         D = physical_kernel(H, (m, n), (M, N), in_y, in_x, out_y, out_x, wvl, efl, sign)
-        proportional(H, 'kernel in physical coordinates (requested dx, shift in output units)', C, D)
+        # inverse direction WITH a shift: the library moves both planes' windows by the same number of samples (its matrix-DFT convention,
+        # see C05), which the property does not speak about; only the relation between focal position and pupil tilt is required there
+        strict_inv = cfg['dir'] == 'inv' and cfg['shift'] == 'zero'
+        proportional(H, 'kernel in physical coordinates (requested dx, shift in output units)', C, D, pupil='out' if strict_inv else 'in')
